@@ -78,6 +78,9 @@ Diff(p, a, b, ma, mb) ==
                   /\ Bag(OrdSeq(a.om, [i \in DOMAIN a.bvals |-> a.bvals[i].e])) # Bag(OrdSeq(b.om, [i \in DOMAIN b.bvals |-> b.bvals[i].e]))
                THEN {V(p \o ".batch-callbacks", <<a.op, a.i>>)} ELSE {})
          \cup (IF a.ok # b.ok THEN {V(p \o ".query-step", <<a.op, a.i>>)} ELSE {})
+    \* (a query naming a removed entity as target: the typed API checks per-query targets, the ID-based API does not -
+    \* each execution is held to "rejected or empty" by ArkTrace, the two API paths are not compared with each other)
+    ELSE IF a.k = "probe" /\ p = "C14" /\ a.stale THEN {}
     ELSE IF a.k = "probe"
     THEN (IF a.panic # b.panic THEN {V(p \o ".panic-differs", "probe")} ELSE {})
          \cup (IF Bag(OrdSeq(ma, Es(a.visited))) # Bag(OrdSeq(mb, Es(b.visited))) \/ a.count # b.count
